@@ -51,6 +51,15 @@ def idx(it):
     return ("mcall", "Eigen::SparseCompressedBase::InnerIterator::index", it["var"])
 
 
+def _subkeys_l(k):
+    out = [k]
+    if isinstance(k, tuple):
+        for x in k:
+            if isinstance(x, tuple):
+                out.extend(_subkeys_l(x))
+    return out
+
+
 def check_part_compute(rule, db, cfgname, fname, left_field, right_field, sign, zero_pole=None):
     """<o|A|i><i|B|o> Lehmann term of a two-operator part.
        left_field: field holding the operator part iterated row-major (C / A), right_field: column-major (CX / B);
@@ -90,8 +99,86 @@ def check_part_compute(rule, db, cfgname, fname, left_field, right_field, sign, 
         raise AnalysisBroken("%s: expected exactly one add_term site, found %d" % (fname, len(adds)))
     J = adds[0]
     fa = at.get(f.cfg.pos1(J), frozenset())
+
+    # values captured in locals before the iterators are advanced (Residue / Pole / the two indices computed first, `++it`
+    # next, add_term last): a single-assignment local whose declaration precedes, in every iteration, each change of the
+    # variables its initialiser mentions stands for that initialiser evaluated on the elements the iterators pointed at when it
+    # was captured.  All quantities of one term are then expressed at the same capture time.
+    def captured_locals(k, acc):
+        for y in _subkeys_l(k):
+            if y[0] == "var" and y[1] not in acc:
+                dv = ctx.decls.get(y[1])
+                if dv and dv.get("init") is not None and ctx.single_assignment(y[1]) and dv.get("declnode") is not None and f.cfg.pos1(dv["declnode"]) is not None:
+                    acc[y[1]] = ctx.key(dv["init"], inline=False)
+                    captured_locals(acc[y[1]], acc)
+        return acc
+    caps = captured_locals(ctx.key(f.nodes[J]["args"][0], inline=False), {})
+    for fct in fa:
+        for x in fct[1:]:
+            if isinstance(x, tuple):
+                captured_locals(x, caps)
+    Ls_J = enclosing_loops(f, J)
+    hdr_J = f.cfg.loop_blocks(Ls_J[0])[0] if Ls_J else None
+    in_header = lambda b_, i_, e_: hdr_J is not None and b_ == hdr_J
+
+    def consistent():
+        """all captured locals see the same iterator state: between the declarations of two of them (inside one iteration) no
+        variable that the earlier one's initialiser mentions is changed"""
+        ds = list(caps)
+        for d1 in ds:
+            p1 = f.cfg.pos1(ctx.decls[d1]["declnode"])
+            muts = {}
+            for y in _subkeys_l(caps[d1]):
+                if y[0] == "var" and ctx.mut.get(y[1]):
+                    muts[y[1]] = [m for m in ctx.mut[y[1]] if m != ctx.decls.get(y[1], {}).get("declnode") and f.cfg.pos1(m) is not None]
+            if not muts:
+                continue
+            for d2 in ds:
+                if d2 == d1:
+                    continue
+                # only a local that itself reads a changing variable can see another state of THAT variable
+                shared = set(muts) & {y[1] for y in _subkeys_l(caps[d2]) if y[0] == "var"}
+                if not shared:
+                    continue
+                p2 = f.cfg.pos1(ctx.decls[d2]["declnode"])
+                if not f.cfg.dominates(p1, p2):
+                    continue
+                for v_ in shared:
+                    for m in muts[v_]:
+                        pm = f.cfg.pos1(m)
+                        if f.cfg.paths_avoiding(p1, lambda b_, i_, e_, pm=pm: (b_, i_) == pm, in_header) and f.cfg.paths_avoiding(pm, lambda b_, i_, e_, p2=p2: (b_, i_) == p2, in_header):
+                            return False
+        return True
+    caps_ok = bool(caps) and consistent()
+
+    def cap(k, depth=0):
+        if not caps_ok:
+            return k
+        return key_subst(k, lambda x: cap(caps[x[1]], depth + 1) if x[0] == "var" and x[1] in caps and depth < 8 else None)
+    if caps_ok and Ls_J:
+        # branch conditions taken earlier in the same iteration on values that were captured before the iterators moved: the
+        # must-dataflow has dropped them at the `++`; read them off the paths (they hold for the captured state)
+        from pv import paths as _P
+        hdr_, plist_ = _P.loop_body_paths(f, Ls_J[0])
+        pj = f.cfg.pos1(J)
+        common = None
+        for pth in plist_ or []:
+            if pj[0] not in pth:
+                continue
+            pf_ = _P.path_facts(f, ctx, pth[:pth.index(pj[0]) + 1])
+            if not _P.feasible(pf_):
+                continue
+            common = set(pf_) if common is None else (common & set(pf_))
+        for fct in (common or ()):
+            captured_locals(("x",) + tuple(y for y in fct[1:] if isinstance(y, tuple)), caps)
+        caps_ok = consistent()
+        if caps_ok and common:
+            fa = frozenset(set(fa) | common)
+    fa = frozenset(set(fa) | {tuple(cap(x) if isinstance(x, tuple) else x for x in fct) for fct in fa})
     rw = rw_facts(fa)
     tk = ctx.key(f.nodes[J]["args"][0])
+    if key_contains(tk, lambda y: y[0] == "var" and y[1] in ctx.decls and ctx.single_assignment(y[1])):
+        tk = cap(tk)
     if not (tk[0] == "ctor" and tk[1] == cls + "::Term" and len(tk) == 4):
         raise AnalysisBroken("%s: add_term argument is not Term(Residue, Pole): %s" % (fname, f.s(J)[:100]))
     F = Formula()
